@@ -170,6 +170,11 @@ def ensure_facts(config="libs-all", verbose=False):
         fcntl.flock(lk, fcntl.LOCK_EX)
         try:
             if os.path.exists(stamp):
+                # a tree that is being analysed is not the one to evict (several checks may run side by side)
+                try:
+                    os.utime(os.path.join(CACHE, "facts", th), None)
+                except OSError:
+                    pass
                 return out_dir, th
             if os.path.isdir(out_dir):
                 shutil.rmtree(out_dir)
@@ -223,5 +228,5 @@ def _gc_old(keep):
     except OSError:
         return
     ents.sort(reverse=True)
-    for _, d in ents[6:]:
+    for _, d in ents[10:]:
         shutil.rmtree(os.path.join(root, d), ignore_errors=True)
